@@ -7,3 +7,4 @@ pub(crate) mod refbmca;
 pub(crate) mod refcodec;
 pub(crate) mod gen;
 mod time;
+pub(crate) mod stubs;
